@@ -28,6 +28,11 @@ def main():
     import isoquant
     if os.environ.get("ABLAB_ISOQUANT_VERIF") == "1" and os.environ.get("VERIF_MON"):
         monitors.install_post(os.environ["VERIF_MON"].split(","), isoquant)
+    if os.environ.get("VERIF_START_AT"):
+        # common release time for concurrent runs (all imports are done by now)
+        import time
+        while time.time() < float(os.environ["VERIF_START_AT"]):
+            time.sleep(0.0005)
     try:
         isoquant.main(argv)
     except SystemExit:
